@@ -20,7 +20,7 @@ RULE = (
 	'and model); nodes with arbitrary key / chain code; a malformed stream (indices in [2^31, 2^32), >= 2^32, negative); mnemonics and '
 	'passphrases as opaque strings (vector mnemonics, random ASCII, NFKD-sensitive Unicode for the direct check); facade paths over network '
 	'names x boundary account ids; node -> key pair on random keys and on every account of tests/vectors/*/crypto/6.test-hd-derivation.json; '
-	'BufferWriter.write_int over both byte orders incl. overflow. A case is distinct by its (operation, arguments); non-trivial = it reached '
+	'BufferWriter.write_int over both byte orders incl. overflow; histories of calls on shared objects for both facades (one node converted twice, converted then derived further vs the full path, two paths from one node in both orders, several accounts converted and the first converted again, roots of two curves interleaved, random mixes), where every argument object (node, path list, seed buffer) is compared with its snapshot after every call. A case is distinct by its (operation, arguments); non-trivial = it reached '
 	'the implementation and (when the driver runs) the model.')
 TRUSTED_BASE = [
 	'Lean 4.33 kernel; axioms of the property theorems: subset of {propext, Classical.choice, Quot.sound}',
@@ -427,7 +427,10 @@ def evaluate(modules, case):
 			expected_start = (key, chain)
 			prefix = f'{hx(key)} {hx(chain)}'
 			names = ('node_derive', None)
-		whole = impl_node(attempt(lambda: start().derive_path(path)))
+		path_argument = list(path)
+		whole = impl_node(attempt(lambda: start().derive_path(path_argument)))
+		if in_property_range(path):
+			out.require(path_argument == list(path), f'derive_path changed the path list it was given: {path} -> {path_argument}')
 		out.request(f'{names[0]} {prefix} {path_text(path)}', whole)
 		if in_property_range(path):
 			out.branches.append(f'path-length-{len(path)}')
@@ -484,6 +487,9 @@ def evaluate(modules, case):
 		key_pair = facade_class.KeyPair(node.private_key) if raw else facade_class.bip32_node_to_key_pair(node)
 		public = key_pair.public_key.bytes
 		shown = key_pair.private_key.bytes
+		out.require(
+			(bytes(node.private_key.bytes), bytes(node.chain_code)) == (key, b''),
+			f'{facade_name} conversion to a key pair changed the node it was given: private key {hx(key)} -> {hx(bytes(node.private_key.bytes))}')
 		secret = key[::-1] if (raw and 'nem' == facade_name) else key
 		expected_public = spec_public_key(digest_function, secret)
 		kind = 'KeyPair(node.private_key)' if raw else 'bip32_node_to_key_pair(node)'
@@ -506,8 +512,14 @@ def evaluate(modules, case):
 		facade_class = modules['facades'][facade_name]
 		raw = case.get('raw', False)
 		digest_function = spec_sha512 if 'symbol' == facade_name else spec_keccak_512
-		node = modules['Bip32'](facade_class.BIP32_CURVE_NAME).from_seed(seed).derive_path(path)
+		path_argument = list(path)
+		node = modules['Bip32'](facade_class.BIP32_CURVE_NAME).from_seed(seed).derive_path(path_argument)
+		out.require(path_argument == list(path), f'derive_path changed the path list it was given: {path} -> {path_argument}')
+		before = (bytes(node.private_key.bytes), bytes(node.chain_code))
 		key_pair = facade_class.KeyPair(node.private_key) if raw else facade_class.bip32_node_to_key_pair(node)
+		out.require(
+			(bytes(node.private_key.bytes), bytes(node.chain_code)) == before,
+			f'{facade_name} conversion to a key pair changed the node it was given: private key {hx(before[0])} -> {hx(bytes(node.private_key.bytes))}')
 		expected_key = spec_path(spec_root(SHIPPED_CURVES[facade_name], seed), path)[0]
 		secret = expected_key[::-1] if (raw and 'nem' == facade_name) else expected_key
 		public = key_pair.public_key.bytes
@@ -518,6 +530,76 @@ def evaluate(modules, case):
 		operation_name = 'account_raw' if raw else 'account'
 		out.request(f'{operation_name} {facade_name} {hx(seed)} {path_text(path)}', f'ok {hx(secret)} {hx(public)} {hx(shown)}')
 		out.branches.append(f'account:{facade_name}:' + ('raw' if raw else 'facade'))
+	elif 'history' == operation:
+		# several calls on shared objects: every result is compared with the oracle evaluated on the values the objects *should*
+		# hold, and after every call all argument objects (nodes, path lists) are compared with their snapshots
+		facade_name, seed = case['facade'], bytes.fromhex(case['seed'])
+		facade_class = modules['facades'][facade_name]
+		digest_function = spec_sha512 if 'symbol' == facade_name else spec_keccak_512
+		nodes = {}
+		expected = {}
+		key_pairs = {}
+		for number, step in enumerate(case['steps']):
+			kind = step[0]
+			text = f'step {number} {step}'
+			if 'root' == kind:
+				_, curve, target = step
+				seed_argument = bytearray(seed)
+				nodes[target] = modules['Bip32'](curve).from_seed(seed_argument)
+				out.require(bytes(seed_argument) == seed, f'{text}: from_seed changed the seed buffer it was given')
+				expected[target] = spec_root(curve, seed)
+				out.request(f'from_seed {sx(curve)} {hx(seed)}', node_text((bytes(nodes[target].private_key.bytes), bytes(nodes[target].chain_code))))
+			elif kind in ('derive', 'one'):
+				_, source, path, target = step
+				path_argument = list(path)
+				if 'derive' == kind:
+					node = nodes[source].derive_path(path_argument)
+				else:
+					node = nodes[source]
+					for index in path_argument:
+						node = node.derive_one(index)
+				out.require(path_argument == list(path), f'{text}: the path list it was given changed to {path_argument}')
+				start = expected[source]
+				expected_node = spec_path(start, path)
+				actual = (bytes(node.private_key.bytes), bytes(node.chain_code))
+				out.require(
+					actual == expected_node,
+					f'{text}: deriving {path} from node "{source}" (after the earlier steps) != the chain of SLIP-10 children of that node: {node_text(actual)}')
+				out.request(f'node_derive {hx(start[0])} {hx(start[1])} {path_text(path)}', node_text(actual))
+				if target in nodes:
+					out.require(actual == expected[target], f'{text}: deriving the same path again gave a different node')
+				nodes[target] = node
+				expected[target] = expected_node
+			elif kind in ('convert', 'convert_raw'):
+				_, source = step
+				raw = 'convert_raw' == kind
+				node = nodes[source]
+				key_pair = facade_class.KeyPair(node.private_key) if raw else facade_class.bip32_node_to_key_pair(node)
+				key = expected[source][0]
+				secret = key[::-1] if (raw and 'nem' == facade_name) else key
+				public, shown = bytes(key_pair.public_key.bytes), bytes(key_pair.private_key.bytes)
+				out.require(
+					public == spec_public_key(digest_function, secret),
+					f'{text}: key pair of node "{source}" (after the earlier steps) has public key {hx(public)}, not the Ed25519 public key of the node key bytes')
+				out.require(shown == (key[::-1] if ('nem' == facade_name and not raw) else key), f'{text}: key pair of node "{source}" shows private key {hx(shown)}')
+				if (source, raw) in key_pairs:
+					out.require(key_pairs[(source, raw)] == (public, shown), f'{text}: converting node "{source}" again gave a different key pair')
+				key_pairs[(source, raw)] = (public, shown)
+				answer = f'{hx(secret)} {hx(public)} {hx(shown)}'
+				if raw:
+					out.request(f'nem_keypair_raw {hx(key)}' if 'nem' == facade_name else f'symbol_keypair {hx(key)}', answer)
+				else:
+					out.request(f'{facade_name}_keypair {hx(key)}', answer if 'symbol' == facade_name else 'ok ' + answer)
+			else:
+				raise ValueError(f'unknown step {kind}')
+			for name, node in nodes.items():
+				actual = (bytes(node.private_key.bytes), bytes(node.chain_code))
+				out.require(
+					actual == expected[name],
+					f'{text} changed node "{name}", an object it was given or that was derived earlier: {node_text(expected[name])} -> {node_text(actual)}')
+			if out.property_failures:
+				break
+		out.branches.append(f'history:{facade_name}:{case.get("shape", "?")}')
 	elif 'write_int' == operation:
 		order, buffer, value, count = case['order'], bytes.fromhex(case['buffer']), case['value'], case['count']
 		writer = modules['BufferWriter'](order)
@@ -667,6 +749,54 @@ def generate(ctx, vectors):
 			cases.append({
 				'op': 'account', 'facade': facade_name, 'seed': gen_seed(rng, vector_seeds).hex().upper(), 'path': [44, coin, account, 0, 0],
 				'raw': False})
+
+	# histories on shared objects (argument immutability, re-use)
+	for facade_name in ('symbol', 'nem'):
+		curve = SHIPPED_CURVES[facade_name]
+		for number in range(ctx.scale(40, 600)):
+			coin = COIN_TYPES[facade_name] if rng.random() < 0.5 else 1
+			accounts = rng.sample([0, 1, 2, 3, 7, (1 << 31) - 1, rng.randrange(1 << 31)], 3)
+			convert = lambda: rng.choice(['convert', 'convert', 'convert_raw'])  # noqa: E731 pylint: disable=unnecessary-lambda-assignment
+			shape = ['twice', 'convert-then-derive', 'two-paths-both-orders', 'accounts-then-first-again', 'roots', 'random'][number % 6]
+			steps = [['root', curve, 'root']]
+			if 'twice' == shape:
+				kind = convert()
+				steps += [['derive', 'root', [44, coin, accounts[0], 0, 0], 'leaf'], [kind, 'leaf'], [kind, 'leaf'], ['convert', 'leaf'], ['convert', 'root'], ['convert', 'root']]
+			elif 'convert-then-derive' == shape:
+				steps += [
+					['derive', 'root', [44, coin, accounts[0]], 'account'], [convert(), 'account'], ['derive', 'account', [0, 0], 'leaf'], ['convert', 'leaf'],
+					['derive', 'root', [44, coin, accounts[0], 0, 0], 'leaf'], ['convert', 'leaf'], ['one', 'account', [0], 'change'], [convert(), 'change'],
+					['one', 'change', [0], 'leaf']]
+			elif 'two-paths-both-orders' == shape:
+				first, second = [44, coin, accounts[0], 0, 0], [44, coin, accounts[1], 0, 0]
+				steps += [
+					['derive', 'root', first, 'a'], ['derive', 'root', second, 'b'], ['convert', 'a'], ['convert', 'b'],
+					['derive', 'root', second, 'b'], ['derive', 'root', first, 'a'], ['convert', 'b'], ['convert', 'a']]
+			elif 'accounts-then-first-again' == shape:
+				steps += [['derive', 'root', [44, coin], 'coin']]
+				for position, account in enumerate(accounts):
+					steps += [['derive', 'coin', [account, 0, 0], f'account{position}'], [convert(), f'account{position}']]
+				steps += [['convert', 'account0'], ['convert', 'coin'], ['derive', 'coin', [accounts[0], 0, 0], 'account0'], ['convert', 'account0']]
+			elif 'roots' == shape:
+				other = SHIPPED_CURVES['nem' if 'symbol' == facade_name else 'symbol']
+				steps += [
+					['convert', 'root'], ['root', other, 'other'], ['root', curve, 'root'], ['convert', 'root'], ['derive', 'root', [44, coin, accounts[0], 0, 0], 'leaf'],
+					['derive', 'other', [44, coin, accounts[0], 0, 0], 'other-leaf'], ['convert', 'leaf']]
+			else:
+				names = ['root']
+				for _ in range(rng.randrange(4, 12)):
+					source = rng.choice(names)
+					pick = rng.random()
+					if pick < 0.45:
+						steps.append([convert(), source])
+					else:
+						target = rng.choice(names[1:] + [f'n{len(names)}']) if len(names) > 1 and rng.random() < 0.2 else f'n{len(names)}'
+						path = [boundary_index(rng) for _ in range(rng.choice([1, 1, 2, 3]))]
+						if target in names:
+							continue  # re-deriving under an existing name is only meaningful for the same source and path (done in the fixed shapes)
+						steps.append([rng.choice(['derive', 'one']), source, path, target])
+						names.append(target)
+			cases.append({'op': 'history', 'facade': facade_name, 'seed': gen_seed(rng, vector_seeds).hex().upper(), 'steps': steps, 'shape': shape})
 
 	# BufferWriter
 	for _ in range(ctx.scale(200, 2000)):
